@@ -328,6 +328,18 @@ def run_detect(ctx, docs, idx):
         return 2, []
 
 
+def detector_order():
+    """the order in which detect_sarif_tools iterates the detectors: that of the `sarif_detectors` entry points"""
+    from importlib.metadata import entry_points
+    names = [ent.name for ent in entry_points().select(group="sarif_detectors")]
+    seen, out = set(), []
+    for nm in names:                      # the code builds a dict name -> detector: first position of each name
+        if nm not in seen and nm in ("semgrep", "codeql"):
+            seen.add(nm)
+            out.append({"semgrep": 0, "codeql": 1}[nm])
+    return out
+
+
 def run_tools(ctx):
     rng = ctx.rng
     n = 80 if ctx.quick() else 800
@@ -347,8 +359,10 @@ def run_tools(ctx):
                 kinds = [rng.choice(["semgrep", "codeql", "other", "other", "no_name", "no_driver", "no_tool", "name_int"]) for _ in range(rng.randint(0, 4))]
                 docs.append({"version": "2.1.0", "runs": [gen_tool_run(rng, k) for k in kinds]})
         kind, pairs = run_detect(ctx, docs, i)
+        order = detector_order()
         ctx.count(f"detect_sarif_tools:outcome:{['ok', 'duplicate', 'crash'][kind]}")
-        cases.append(cpair(clist([cpair(core.cN(j), cjson(d)) for j, d in enumerate(docs)], "N * json"), core.cN(kind),
+        cases.append(cpair(clist([core.cN(t) for t in order], "N"),
+                           clist([cpair(core.cN(j), cjson(d)) for j, d in enumerate(docs)], "N * json"), core.cN(kind),
                            clist([cpair(core.cN(a), core.cN(b)) for a, b in pairs], "N * N")))
         meta.append((docs, kind, pairs))
         ctx.case({"detect_sarif_tools": docs, "outcome": kind, "attribution": pairs}, nontrivial_key=("tools", json.dumps(docs, sort_keys=True)) if pairs else None,
